@@ -964,9 +964,11 @@ impl CodeGenerator {
                                     }
 
                                     code.push_back(instr!("proceed"));
-                                } else {
-                                    self.marker.free_var(chunk_num, var_num);
                                 }
+
+                                // the cut variable is not given back here: an explicit
+                                // cut inside \+ or a condition uses the variable of the
+                                // enclosing construct, whose own cut comes later.
                             }
                             &QueryTerm::Clause(
                                 _,
